@@ -164,28 +164,36 @@ Section ToTables.
     somes (flat_map (fun r => map (fun c => mk_ocell cs base r c) cols) rows).
 
   (** summarizeCol (with the repaired set-difference test) *)
+  Definition has_cell (cs : list bcell) (c : N) (r : N) : bool :=
+    match find_cell r c cs with Some _ => true | None => false end.
+
+  (* one row of the walk: summaries, ratios, badRatio *)
+  Definition sum_step (cs : list bcell) (c0 col : N) (is_base : bool)
+             (acc : list b64 * list b64 * bool) (r : N) : list b64 * list b64 * bool :=
+    let '(sums, ratios, bad) := acc in
+    match find_cell r col cs with
+    | None => acc
+    | Some x =>
+        let a := centre (sample_of x) in
+        let sums' := sums ++ [a] in
+        if is_base then (sums', ratios, bad) else
+        match find_cell r c0 cs with
+        | None => (sums', ratios, bad)
+        | Some xb =>
+            let b := centre (sample_of xb) in
+            if b64_eq a b then (sums', ratios ++ [b64_one], bad)
+            else if b64_eq b b64_zero then (sums', ratios ++ [b64_zero], true)
+            else (sums', ratios ++ [b64_div a b], bad)
+        end
+    end.
+
+  Definition set_warning (n_base n_sums n_ratios : nat) (is_base : bool) : bool :=
+    negb is_base && (negb (Nat.eqb n_base n_ratios) || negb (Nat.eqb n_sums n_ratios)).
+
   Definition col_summary (cs : list bcell) (rows : list N) (c0 : N) (is_base : bool) (col : N) : colsum :=
-    let n_base := length (filter (fun r => match find_cell r c0 cs with Some _ => true | None => false end) rows) in
-    (* walk the rows: summaries, ratios, badRatio *)
-    let step (acc : list b64 * list b64 * bool) (r : N) :=
-      let '(sums, ratios, bad) := acc in
-      match find_cell r col cs with
-      | None => acc
-      | Some x =>
-          let a := centre (sample_of x) in
-          let sums' := sums ++ [a] in
-          if is_base then (sums', ratios, bad) else
-          match find_cell r c0 cs with
-          | None => (sums', ratios, bad)
-          | Some xb =>
-              let b := centre (sample_of xb) in
-              if b64_eq a b then (sums', ratios ++ [b64_one], bad)
-              else if b64_eq b b64_zero then (sums', ratios ++ [b64_zero], true)
-              else (sums', ratios ++ [b64_div a b], bad)
-          end
-      end in
-    let '(sums, ratios, bad) := fold_left step rows ([], [], false) in
-    let warn := negb is_base && (negb (Nat.eqb n_base (length ratios)) || negb (Nat.eqb (length sums) (length ratios))) in
+    let n_base := length (filter (has_cell cs c0) rows) in
+    let '(sums, ratios, bad) := fold_left (sum_step cs c0 col is_base) rows ([], [], false) in
+    let warn := set_warning n_base (length sums) (length ratios) is_base in
     let gm := geomean sums in
     let gr := geomean ratios in
     let has_ratio := negb is_base && negb bad && negb (b64_is_nan gr) in
